@@ -2257,6 +2257,14 @@ impl DB {
             }
         }
 
+        // The loop above can also end because of a background error while the compaction thread
+        // is still working on this request with the mutex released. Let that round finish before
+        // withdrawing the request it is going to complete.
+        while db_fields_guard.background_compaction_scheduled {
+            self.background_work_finished_signal
+                .wait(&mut db_fields_guard);
+        }
+
         if db_fields_guard.maybe_manual_compaction.is_some()
             && Arc::ptr_eq(
                 &wrapped_manual_compaction,
